@@ -22,7 +22,7 @@ End AListLemmas.
 (* the template store *)
 Section StoreProofs.
   Variable tmpl : Type.
-  Variable compile : src -> cres tmpl.
+  Variable compile : cmode -> src -> cres tmpl.
   Variable loader : Z -> Z -> name -> lres.
 
   Notation store := (store tmpl).
@@ -34,113 +34,115 @@ Section StoreProofs.
   Notation sget := (spec_get tmpl compile loader).
 
   (* what the environment contains: the borrowed tier shadows the owned tier (which holds the added
-     and the loader-obtained templates alike); compiled templates are forgotten *)
+     and the loader-obtained templates alike); each template as (configuration it was compiled under,
+     source); compiled templates are forgotten *)
   Definition abs (s : store) : contents :=
     {| tpl := fun n => match a_get (borrowed _ s) n with
                        | Some (x, _) => Some x
                        | None => match a_get (owned _ s) n with Some (x, _) => Some x | None => None end
                        end;
-       cur_loader := ldr _ s |}.
+       cur_loader := ldr _ s;
+       cur_cfg := cfg _ s |}.
 
-  (* every cached compiled template is the compilation of the source stored with it *)
+  (* every cached compiled template is the compilation of the source stored with it, under the
+     configuration stored with it *)
   Definition wf (s : store) : Prop :=
-    (forall n x t, a_get (borrowed _ s) n = Some (x, t) -> compile x = COk t) /\
-    (forall n x t, a_get (owned _ s) n = Some (x, t) -> compile x = COk t).
+    (forall n x t, a_get (borrowed _ s) n = Some (x, t) -> compile (MTemplate (fst x)) (snd x) = COk t) /\
+    (forall n x t, a_get (owned _ s) n = Some (x, t) -> compile (MTemplate (fst x)) (snd x) = COk t).
 
   (* equal contents (finite maps compared pointwise) *)
   Definition sim (c1 c2 : contents) : Prop :=
-    (forall n, tpl c1 n = tpl c2 n) /\ cur_loader c1 = cur_loader c2.
+    (forall n, tpl c1 n = tpl c2 n) /\ cur_loader c1 = cur_loader c2 /\ cur_cfg c1 = cur_cfg c2.
 
   Lemma sim_refl c : sim c c.
-  Proof. split; auto. Qed.
+  Proof. repeat split; auto. Qed.
   Lemma sim_sym c1 c2 : sim c1 c2 -> sim c2 c1.
-  Proof. intros [H1 H2]; split; auto. Qed.
+  Proof. intros (H1 & H2 & H3); repeat split; auto. Qed.
   Lemma sim_trans c1 c2 c3 : sim c1 c2 -> sim c2 c3 -> sim c1 c3.
-  Proof. intros [H1 H2] [H3 H4]; split; [intros n; rewrite H1; auto | congruence]. Qed.
+  Proof. intros (H1 & H2 & H3) (H4 & H5 & H6); split; [intros n; rewrite H1; auto | split; congruence]. Qed.
 
   Lemma wf_new : wf (store_new tmpl).
   Proof. split; intros n x t H; discriminate. Qed.
 
   Lemma abs_new : sim (abs (store_new tmpl)) contents_new.
-  Proof. split; reflexivity. Qed.
+  Proof. repeat split; reflexivity. Qed.
 
   (* per function: the model step refines the spec step *)
   Definition refines {O : Type} (r : store * O) (r' : contents * O) : Prop :=
     wf (fst r) /\ sim (abs (fst r)) (fst r') /\ snd r = snd r'.
 
-  Ltac eqb_cases :=
-    repeat match goal with
-           | |- context [?a =? ?b] => let E := fresh "E" in destruct (a =? b) eqn:E
-           | H : context [?a =? ?b] |- _ => let E := fresh "E" in destruct (a =? b) eqn:E
-           end.
-
   Lemma insert_borrowed_refines s c n x : wf s -> sim (abs s) c ->
     refines (step s (OAddBorrowed n x)) (sstep c (OAddBorrowed n x)).
   Proof.
-    intros [Wb Wo] [Ht Hl]. unfold refines, store_step, insert_borrowed, spec_step, spec_add.
-    destruct (compile x) as [t|e] eqn:Ec; cbn [fst snd].
-    - split; [split|split; [split|reflexivity]]; cbn [borrowed owned ldr abs tpl cur_loader].
+    intros [Wb Wo] S. pose proof S as (Ht & Hl & Hc). cbn [abs cur_cfg cur_loader] in Hl, Hc.
+    unfold refines, store_step, insert_borrowed, spec_step, spec_add. rewrite <- Hc.
+    destruct (compile (MTemplate (cfg _ s)) x) as [t|e] eqn:Ec; cbn [fst snd].
+    - split; [split|split; [split; [|split]|reflexivity]]; cbn [borrowed owned ldr cfg abs tpl cur_loader cur_cfg]; auto.
       + intros n0 x0 t0. rewrite a_get_insert. destruct (n =? n0) eqn:E; [intros H; inversion H; subst; auto | apply Wb].
       + intros n0 x0 t0. rewrite a_get_remove. destruct (n =? n0) eqn:E; [discriminate | apply Wo].
       + intros n0. rewrite a_get_insert, a_get_remove. unfold upd. specialize (Ht n0). cbn [abs tpl] in Ht.
         destruct (n =? n0) eqn:E; destruct (n0 =? n) eqn:E'; try lia; auto.
-      + exact Hl.
-    - split; [split; assumption|split; [split; assumption|reflexivity]].
+    - split; [split; assumption|split; [exact S|reflexivity]].
   Qed.
 
   Lemma insert_owned_refines s c n x : wf s -> sim (abs s) c ->
     refines (step s (OAddOwned n x)) (sstep c (OAddOwned n x)).
   Proof.
-    intros [Wb Wo] [Ht Hl]. unfold refines, store_step, insert_owned, spec_step, spec_add.
-    destruct (compile x) as [t|e] eqn:Ec; cbn [fst snd].
-    - split; [split|split; [split|reflexivity]]; cbn [borrowed owned ldr abs tpl cur_loader].
+    intros [Wb Wo] S. pose proof S as (Ht & Hl & Hc). cbn [abs cur_cfg cur_loader] in Hl, Hc.
+    unfold refines, store_step, insert_owned, spec_step, spec_add. rewrite <- Hc.
+    destruct (compile (MTemplate (cfg _ s)) x) as [t|e] eqn:Ec; cbn [fst snd].
+    - split; [split|split; [split; [|split]|reflexivity]]; cbn [borrowed owned ldr cfg abs tpl cur_loader cur_cfg]; auto.
       + intros n0 x0 t0. rewrite a_get_remove. destruct (n =? n0) eqn:E; [discriminate | apply Wb].
       + intros n0 x0 t0. rewrite a_get_insert. destruct (n =? n0) eqn:E; [intros H; inversion H; subst; auto | apply Wo].
       + intros n0. rewrite a_get_insert, a_get_remove. unfold upd. specialize (Ht n0). cbn [abs tpl] in Ht.
         destruct (n =? n0) eqn:E; destruct (n0 =? n) eqn:E'; try lia; auto.
-      + exact Hl.
-    - split; [split; assumption|split; [split; assumption|reflexivity]].
+    - split; [split; assumption|split; [exact S|reflexivity]].
   Qed.
 
   Lemma remove_refines s c n : wf s -> sim (abs s) c -> refines (step s (ORemove n)) (sstep c (ORemove n)).
   Proof.
-    intros [Wb Wo] [Ht Hl]. unfold refines, store_step, remove, spec_step; cbn [fst snd].
-    split; [split|split; [split|reflexivity]]; cbn [borrowed owned ldr abs tpl cur_loader].
+    intros [Wb Wo] (Ht & Hl & Hc). unfold refines, store_step, remove, spec_step; cbn [fst snd].
+    split; [split|split; [split; [|split]|reflexivity]]; cbn [borrowed owned ldr cfg abs tpl cur_loader cur_cfg]; auto.
     - intros n0 x0 t0. rewrite a_get_remove. destruct (n =? n0); [discriminate | apply Wb].
     - intros n0 x0 t0. rewrite a_get_remove. destruct (n =? n0); [discriminate | apply Wo].
     - intros n0. rewrite !a_get_remove. unfold upd. specialize (Ht n0). cbn [abs tpl] in Ht.
       destruct (n =? n0) eqn:E; destruct (n0 =? n) eqn:E'; try lia; auto.
-    - exact Hl.
   Qed.
 
   Lemma clear_refines s c : wf s -> sim (abs s) c -> refines (step s OClear) (sstep c OClear).
   Proof.
-    intros [Wb Wo] [Ht Hl]. unfold refines, store_step, clear, spec_step; cbn [fst snd].
-    split; [split|split; [split|reflexivity]]; cbn [borrowed owned ldr abs tpl cur_loader a_get]; try discriminate; auto.
+    intros [Wb Wo] (Ht & Hl & Hc). unfold refines, store_step, clear, spec_step; cbn [fst snd].
+    split; [split|split; [split; [|split]|reflexivity]]; cbn [borrowed owned ldr cfg abs tpl cur_loader cur_cfg a_get]; try discriminate; auto.
   Qed.
 
   Lemma set_loader_refines s c l : wf s -> sim (abs s) c -> refines (step s (OSetLoader l)) (sstep c (OSetLoader l)).
   Proof.
-    intros [Wb Wo] [Ht Hl]. unfold refines, store_step, set_loader, spec_step; cbn [fst snd].
-    split; [split; assumption|split; [split|reflexivity]]; cbn [borrowed owned ldr abs tpl cur_loader]; auto.
+    intros [Wb Wo] (Ht & Hl & Hc). unfold refines, store_step, set_loader, spec_step; cbn [fst snd].
+    split; [split; assumption|split; [split; [|split]|reflexivity]]; cbn [borrowed owned ldr cfg abs tpl cur_loader cur_cfg]; auto.
+  Qed.
+
+  Lemma set_config_refines s c k : wf s -> sim (abs s) c -> refines (step s (OSetConfig k)) (sstep c (OSetConfig k)).
+  Proof.
+    intros [Wb Wo] (Ht & Hl & Hc). unfold refines, store_step, set_config, spec_step; cbn [fst snd].
+    split; [split; assumption|split; [split; [|split]|reflexivity]]; cbn [borrowed owned ldr cfg abs tpl cur_loader cur_cfg]; auto.
   Qed.
 
   Lemma get_refines_pair s c n now : wf s -> sim (abs s) c ->
     wf (fst (mget s n now)) /\ sim (abs (fst (mget s n now))) (fst (sget c n now)) /\
     snd (mget s n now) = snd (sget c n now).
   Proof.
-    intros [Wb Wo] S. pose proof S as [Ht Hl]. unfold get, spec_get.
-    pose proof (Ht n) as Hn. cbn [abs tpl cur_loader] in Hn, Hl.
+    intros [Wb Wo] S. pose proof S as (Ht & Hl & Hc). unfold get, spec_get.
+    pose proof (Ht n) as Hn. cbn [abs tpl cur_loader cur_cfg] in Hn, Hl, Hc.
     assert (Same : forall r : gres tmpl, wf (fst (s, r)) /\ sim (abs (fst (s, r))) (fst (c, r)) /\ snd (s, r) = snd (c, r)).
     { intros r; cbn [fst snd]. split; [split; assumption | split; [exact S | reflexivity]]. }
-    destruct (a_get (borrowed _ s) n) as [[x t]|] eqn:Eb.
-    - rewrite <- Hn. rewrite (Wb _ _ _ Eb). apply Same.
-    - destruct (a_get (owned _ s) n) as [[x t]|] eqn:Eo.
-      + rewrite <- Hn. rewrite (Wo _ _ _ Eo). apply Same.
-      + rewrite <- Hn, <- Hl. destruct (ldr _ s) as [l|] eqn:El; [|apply Same].
+    destruct (a_get (borrowed _ s) n) as [[[k x] t]|] eqn:Eb.
+    - rewrite <- Hn. pose proof (Wb _ _ _ Eb) as Hw. cbn [fst snd] in Hw. rewrite Hw. apply Same.
+    - destruct (a_get (owned _ s) n) as [[[k x] t]|] eqn:Eo.
+      + rewrite <- Hn. pose proof (Wo _ _ _ Eo) as Hw. cbn [fst snd] in Hw. rewrite Hw. apply Same.
+      + rewrite <- Hn, <- Hl, <- Hc. destruct (ldr _ s) as [l|] eqn:El; [|apply Same].
         destruct (loader l now n) as [|x|e]; [apply Same| |apply Same].
-        destruct (compile x) as [t|e] eqn:Ec; [|apply Same].
-        cbn [fst snd]. split; [split|split; [split|reflexivity]]; cbn [borrowed owned ldr abs tpl cur_loader]; auto.
+        destruct (compile (MTemplate (cfg _ s)) x) as [t|e] eqn:Ec; [|apply Same].
+        cbn [fst snd]. split; [split|split; [split; [|split]|reflexivity]]; cbn [borrowed owned ldr cfg abs tpl cur_loader cur_cfg]; auto.
         * intros n0 x0 t0. rewrite a_get_insert. destruct (n =? n0) eqn:E; [intros H; inversion H; subst; auto | apply Wo].
         * intros n0. rewrite a_get_insert. unfold upd. specialize (Ht n0). cbn [abs tpl] in Ht.
           destruct (n =? n0) eqn:E; destruct (n0 =? n) eqn:E'; try lia; auto.
@@ -152,13 +154,13 @@ Section StoreProofs.
     intros W S. destruct (get_refines_pair s c n now W S) as (H1 & H2 & H3).
     unfold refines, store_step, spec_step.
     destruct (mget s n now) as [s' r]; destruct (sget c n now) as [c' r']; cbn [fst snd] in *.
-    repeat split; try apply H1; try apply H2. congruence.
+    split; [exact H1|split; [exact H2|congruence]].
   Qed.
 
   Lemma step_refines s c o : wf s -> sim (abs s) c -> refines (step s o) (sstep c o).
   Proof.
     destruct o; auto using insert_borrowed_refines, insert_owned_refines, remove_refines, clear_refines,
-      set_loader_refines, get_refines.
+      set_loader_refines, set_config_refines, get_refines.
   Qed.
 
   Lemma run_refines h : forall s c, wf s -> sim (abs s) c -> refines (run s h) (srun c h).
@@ -169,27 +171,29 @@ Section StoreProofs.
       destruct (step s o) as [s1 out]; destruct (sstep c o) as [c1 out']; cbn [fst snd] in *.
       destruct (IH s1 c1 W1 S1) as (W2 & S2 & O2).
       destruct (run s1 h) as [s2 outs]; destruct (srun c1 h) as [c2 outs']; cbn [fst snd] in *.
-      unfold refines; cbn [fst snd]. repeat split; try apply W2; try apply S2. congruence.
+      unfold refines; cbn [fst snd]. split; [exact W2|split; [exact S2|congruence]].
   Qed.
 
   (* on the specification, equal contents behave equally (so behaviour is a function of the contents) *)
   Lemma spec_step_sim c1 c2 o : sim c1 c2 ->
     sim (fst (sstep c1 o)) (fst (sstep c2 o)) /\ snd (sstep c1 o) = snd (sstep c2 o).
   Proof.
-    intros S. pose proof S as [Ht Hl].
-    destruct o as [n x|n x|n| |l|n now]; unfold spec_step, spec_add, spec_get; cbn [fst snd].
-    1,2: destruct (compile x); cbn [fst snd]; (split; [split|reflexivity]); cbn [tpl cur_loader]; auto;
+    intros S. pose proof S as (Ht & Hl & Hc).
+    destruct o as [n x|n x|n| |l|k|n now]; unfold spec_step, spec_add, spec_get; cbn [fst snd].
+    1,2: rewrite <- Hc; destruct (compile (MTemplate (cur_cfg c1)) x); cbn [fst snd];
+         (split; [split; [|split]|reflexivity]); cbn [tpl cur_loader cur_cfg]; auto;
          intros n0; unfold upd; destruct (n0 =? n); auto.
-    - split; [split|reflexivity]; cbn [tpl cur_loader]; auto. intros n0; unfold upd; destruct (n0 =? n); auto.
-    - split; [split|reflexivity]; cbn [tpl cur_loader]; auto.
-    - split; [split|reflexivity]; cbn [tpl cur_loader]; auto.
+    - split; [split; [|split]|reflexivity]; cbn [tpl cur_loader cur_cfg]; auto. intros n0; unfold upd; destruct (n0 =? n); auto.
+    - split; [split; [|split]|reflexivity]; cbn [tpl cur_loader cur_cfg]; auto.
+    - split; [split; [|split]|reflexivity]; cbn [tpl cur_loader cur_cfg]; auto.
+    - split; [split; [|split]|reflexivity]; cbn [tpl cur_loader cur_cfg]; auto.
     - assert (Same : forall r : gres tmpl, sim (fst (c1, SGot r)) (fst (c2, SGot r)) /\ snd (c1, SGot r) = snd (c2, SGot r)).
       { intros r; cbn [fst snd]; split; [exact S|reflexivity]. }
-      rewrite <- (Ht n), <- Hl. destruct (tpl c1 n) as [x|]; [apply Same|].
+      rewrite <- (Ht n), <- Hl, <- Hc. destruct (tpl c1 n) as [[k x]|]; [apply Same|].
       destruct (cur_loader c1) as [l|] eqn:El; [|apply Same].
       destruct (loader l now n) as [|x|e]; [apply Same| |apply Same].
-      destruct (compile x); [|apply Same].
-      cbn [fst snd]; (split; [split|reflexivity]); cbn [tpl cur_loader]; auto.
+      destruct (compile (MTemplate (cur_cfg c1)) x); [|apply Same].
+      cbn [fst snd]; (split; [split; [|split]|reflexivity]); cbn [tpl cur_loader cur_cfg]; auto.
       intros n0; unfold upd; destruct (n0 =? n); auto.
   Qed.
 
@@ -233,7 +237,7 @@ Section StoreProofs.
     rewrite O1, O2. apply spec_run_sim. exact S.
   Qed.
 
-  Theorem failed_add_is_noop_proof : forall (s : store) n x e, compile x = CErr e ->
+  Theorem failed_add_is_noop_proof : forall (s : store) n x e, compile (MTemplate (cfg _ s)) x = CErr e ->
     step s (OAddBorrowed n x) = (s, SAdd (Some e)) /\ step s (OAddOwned n x) = (s, SAdd (Some e)).
   Proof.
     intros s n x e H. unfold store_step, insert_borrowed, insert_owned. rewrite H. split; reflexivity.
@@ -244,20 +248,21 @@ Section StoreProofs.
     match o with
     | OAddBorrowed n' _ | OAddOwned n' _ | ORemove n' => n' =? n
     | OClear => true
-    | OSetLoader _ | OGet _ _ => false
+    | OSetLoader _ | OSetConfig _ | OGet _ _ => false
     end.
 
   Lemma spec_untouched_keeps c n x o : tpl c n = Some x -> touches n o = false -> tpl (fst (sstep c o)) n = Some x.
   Proof.
-    intros H T. destruct o as [n' x'|n' x'|n'| |l|n' now]; unfold spec_step, spec_add, spec_get; cbn [touches] in T;
+    intros H T. destruct o as [n' x'|n' x'|n'| |l|k|n' now]; unfold spec_step, spec_add, spec_get; cbn [touches] in T;
       cbn [fst snd]; try discriminate.
-    1,2: destruct (compile x'); cbn [fst tpl]; auto; unfold upd; destruct (n =? n') eqn:E; auto; lia.
+    1,2: destruct (compile (MTemplate (cur_cfg c)) x'); cbn [fst tpl]; auto; unfold upd; destruct (n =? n') eqn:E; auto; lia.
     - cbn [tpl]. unfold upd. destruct (n =? n') eqn:E; auto; lia.
     - exact H.
-    - destruct (tpl c n') as [y|] eqn:E'; cbn [fst]; auto.
+    - exact H.
+    - destruct (tpl c n') as [[k y]|] eqn:E'; cbn [fst]; auto.
       destruct (cur_loader c) as [l|]; cbn [fst]; auto.
       destruct (loader l now n') as [|y|e]; cbn [fst]; auto.
-      destruct (compile y); cbn [fst tpl]; auto.
+      destruct (compile (MTemplate (cur_cfg c)) y); cbn [fst tpl]; auto.
       unfold upd. destruct (n =? n') eqn:E; auto. assert (n = n') by lia; subst. congruence.
   Qed.
 
@@ -275,15 +280,16 @@ Section StoreProofs.
       destruct (run s1 h) as [s2 outs]; cbn [fst] in *. auto.
   Qed.
 
-  Lemma get_of_contents s n x now : wf s -> tpl (abs s) n = Some x ->
-    snd (mget s n now) = match compile x with COk t => GOk t | CErr e => GErr e end.
+  Lemma get_of_contents s n k x now : wf s -> tpl (abs s) n = Some (k, x) ->
+    snd (mget s n now) = match compile (MTemplate k) x with COk t => GOk t | CErr e => GErr e end.
   Proof.
     intros W H. destruct (get_refines_pair s (abs s) n now W (sim_refl _)) as (_ & _ & E).
     rewrite E. unfold spec_get. rewrite H. reflexivity.
   Qed.
 
   Theorem loader_source_pinned_proof : forall h n now l x t,
-    tpl (abs (final h)) n = None -> ldr _ (final h) = Some l -> loader l now n = LFound x -> compile x = COk t ->
+    tpl (abs (final h)) n = None -> ldr _ (final h) = Some l -> loader l now n = LFound x ->
+    compile (MTemplate (cfg _ (final h))) x = COk t ->
     snd (mget (final h) n now) = GOk t /\
     forall h', forallb (fun o => negb (touches n o)) h' = true ->
     forall now', snd (mget (fst (run (fst (mget (final h) n now)) h')) n now') = GOk t.
@@ -292,19 +298,20 @@ Section StoreProofs.
     pose proof (final_wf h) as W.
     destruct (get_refines_pair (final h) (abs (final h)) n now W (sim_refl _)) as (W1 & [S1 _] & O1).
     assert (Hs : sget (abs (final h)) n now =
-                 ({| tpl := upd (tpl (abs (final h))) n (Some x); cur_loader := cur_loader (abs (final h)) |}, GOk t)).
-    { unfold spec_get. rewrite Hn. cbn [abs cur_loader]. rewrite Hl, Hf, Hc. reflexivity. }
+                 ({| tpl := upd (tpl (abs (final h))) n (Some (cfg _ (final h), x));
+                     cur_loader := cur_loader (abs (final h)); cur_cfg := cur_cfg (abs (final h)) |}, GOk t)).
+    { unfold spec_get. rewrite Hn. cbn [abs cur_loader cur_cfg]. rewrite Hl, Hf, Hc. reflexivity. }
     rewrite Hs in O1, S1. cbn [fst snd] in *. split; [exact O1|].
     intros h' T now'.
-    assert (K : tpl (abs (fst (mget (final h) n now))) n = Some x).
+    assert (K : tpl (abs (fst (mget (final h) n now))) n = Some (cfg _ (final h), x)).
     { rewrite S1. cbn [tpl]. unfold upd. rewrite Z.eqb_refl. reflexivity. }
-    destruct (untouched_keeps h' _ n x W1 K T) as [W2 K2].
-    rewrite (get_of_contents _ n x now' W2 K2), Hc. reflexivity.
+    destruct (untouched_keeps h' _ n _ W1 K T) as [W2 K2].
+    rewrite (get_of_contents _ n _ x now' W2 K2), Hc. reflexivity.
   Qed.
 End StoreProofs.
 
 (* the code before the fix: a failing add_template evicts the owned template of the same name *)
-Definition demo_compile (x : src) : cres Z := if x =? 0 then CErr E_SyntaxError else COk x.
+Definition demo_compile (m : cmode) (x : src) : cres Z := if x =? 0 then CErr E_SyntaxError else COk x.
 Definition demo_loader (l now n : Z) : lres := LMissing.
 Lemma failed_add_evicts_before_fix_proof :
   let run old := fst (store_run Z demo_compile demo_loader old (store_new Z) [OAddOwned 7 1; OAddBorrowed 7 0]) in
@@ -421,7 +428,7 @@ Qed.
 (* whole environments: store + three copy-on-write registries, current and other environment *)
 Section WorldProofs.
   Variable tmpl : Type.
-  Variable compile : src -> cres tmpl.
+  Variable compile : cmode -> src -> cres tmpl.
   Variable loader : Z -> Z -> name -> lres.
   Variable builtin : rk -> reg.
   Variable render : tmpl -> (rk -> Z -> option Z) -> obs.
@@ -569,7 +576,7 @@ Section WorldProofs.
     winv (fst (wstep w o)) /\ wrel (fst (wstep w o)) (fst (sstep sw o)) /\ snd (wstep w o) = snd (sstep sw o).
   Proof.
     intros I R. pose proof I as (A & W1 & W2). pose proof R as (R1 & R2).
-    destruct o as [so|k nm v|k nm| | |x|n now p]; cbn [world_step sworld_step].
+    destruct o as [so|k nm v|k nm| | |how n x|n now p]; cbn [world_step sworld_step].
     - (* store operation *)
       destruct (step_refines tmpl compile loader (st _ (cur _ w)) (sc (scur sw)) so W1 (proj1 R1)) as (W' & S' & O').
       destruct (store_step tmpl compile loader false (st _ (cur _ w)) so) as [s' out].
@@ -607,9 +614,11 @@ Section WorldProofs.
         * eapply acc_ext; [exact A|]. intros j; unf; rewrite Eo; lia.
         * split; auto.
       + split; [|split]; auto.
-    - (* one-off render *)
+    - (* ad-hoc entry point *)
       cbn [fst snd]. split; [|split]; auto.
-      destruct (compile x); auto. apply render_ext. apply R1.
+      destruct R1 as [(_ & _ & Hc) Rr]. cbn [abs cur_cfg] in Hc.
+      unfold adhoc_mode, s_adhoc_mode. rewrite <- Hc.
+      destruct (compile _ x); auto.
     - (* render with a failing context *)
       destruct (get_refines_pair tmpl compile loader (st _ (cur _ w)) (sc (scur sw)) n now W1 (proj1 R1)) as (W' & S' & O').
       destruct (get tmpl compile loader (st _ (cur _ w)) n now) as [s' r].
@@ -698,7 +707,7 @@ Section WorldProofs.
 
   Lemma sstep_keeps_other sw o : rebinds o = false -> sother (fst (sstep sw o)) = sother sw.
   Proof.
-    destruct o as [so|k nm v|k nm| | |x|n now p]; cbn [rebinds sworld_step]; intros H; try discriminate; auto.
+    destruct o as [so|k nm v|k nm| | |how n x|n now p]; cbn [rebinds sworld_step]; intros H; try discriminate; auto.
     - destruct (spec_step tmpl compile loader (sc (scur sw)) so); reflexivity.
     - destruct (spec_get tmpl compile loader (sc (scur sw)) n now); reflexivity.
   Qed.
@@ -755,5 +764,31 @@ Section WorldProofs.
     destruct (world_run_refines h _ _ I1 (wrel_abs _)) as (_ & _ & O1).
     destruct (world_run_refines h _ _ I2 R2) as (_ & _ & O2).
     congruence.
+  Qed.
+  (* ad-hoc entry points (render_named_str, render_str, template_from_named_str, template_from_str,
+     compile_expression, compile_expression_owned, undeclared-variables analysis): the world is left
+     exactly as it was, whatever the name and the source - so the rest of the history runs as if the
+     ad-hoc operation had not happened - and the result is the given source compiled under the
+     current configuration and rendered against the current registries *)
+  Theorem adhoc_is_noop_proof : forall (w : world) how n x h,
+    (fst (wstep w (WAdhoc how n x)) = w) /\
+    (fst (wrun w (WAdhoc how n x :: h)) = fst (wrun w h)) /\
+    (snd (wrun w (WAdhoc how n x :: h)) = (snd (wstep w (WAdhoc how n x)) :: snd (wrun w h))) /\
+    (snd (wstep w (WAdhoc how n x)) =
+      (match compile (adhoc_mode how (cfg _ (st _ (cur _ w)))) x with
+       | COk t => render t (regs_of tmpl (hp _ w) (cur _ w))
+       | CErr c => o_err c
+       end)).
+  Proof.
+    intros w how n x h. cbn [world_run world_step fst snd].
+    destruct (wrun w h) as [w2 outs]. cbn [fst snd]. repeat split; reflexivity.
+  Qed.
+
+  (* ... and on reachable worlds that result is the specification's: a function of the contents *)
+  Theorem adhoc_result_proof : forall h how n x,
+    snd (wstep (wfinal h) (WAdhoc how n x)) = snd (sstep (sfinal h) (WAdhoc how n x)).
+  Proof.
+    intros h how n x. destruct (wfinal_ok h) as [I R].
+    destruct (world_step_refines _ _ (WAdhoc how n x) I R) as (_ & _ & O). exact O.
   Qed.
 End WorldProofs.
